@@ -1,6 +1,7 @@
 import Wx.Job.C08
 import Wx.Job.C08b
 import Wx.Job.C06
+import Wx.Job.C08t
 /-! # C08 — Quit always terminates and leaves no supervised process behind
 
 > After the action handler requests a quit the main task finishes within a bounded time whatever the jobs are doing:
@@ -43,5 +44,23 @@ theorem stale_restart_slot_spawned_during_quit :
       [.send .normal [.start] false, .settle, .send .normal [.tryGracefulRestart 15 10] false, .advance 50,
        .send .normal [.gracefulStop 15 10] false, .send .normal [.delete] true, .advance 100]).map (fun x => (x.st.alive, x.st.live)) = [(false, [2])] :=
   c08_fails_today
+
+/-- **the time bound, per job**: after the worker's quit sequence (GracefulStop, then Stop + Delete) the job task is gone
+    whenever the clock shows more than: the expiry of the grace timer armed at the quit (or the quit instant), plus the
+    grace periods of graceful controls still queued, plus the quit's own grace period — for every continuation: every race
+    resolution, any passage of time, further sends without a grace period, handle drops -/
+theorem job_gone_after_deadline (x : Sim) (hcfg : x.st.cfg = Fixes.all) (hgone : x.st.isRaised 0 = false) (sig : Sig) (g : Nat)
+    (ops : List Op) (hops : ∀ o ∈ ops, OpOkFor2 NoGrace o) :
+    ∀ y ∈ runOps (doSend (doSend x .normal [.gracefulStop sig g] false) .normal [.stop, .delete] false) ops,
+      deadline x.st + g < y.st.now → y.st.alive = false := c08_quit_bound x hcfg hgone sig g ops hops
+
+/-- an idle job with nothing armed and nothing queued has deadline = now: the quit then takes at most its own grace period -/
+theorem idle_deadline (s : St) (ht : s.timer = none) (hn : s.normal = []) (hh : s.high = []) (hu : s.urgent = []) : deadline s = s.now := by
+  simp [deadline, base, queued, gsum, ht, hn, hh, hu]
+
+/-- **no deadlock on the way**: an alive job with a non-empty normal queue that takes no turn is waiting for an armed,
+    unexpired grace timer — nothing else ever holds a control back -/
+theorem only_a_grace_timer_holds_controls_back {s : St} (hcfg : s.cfg = Fixes.all) (hal : s.alive = true) (hne : s.normal ≠ [])
+    (hidle : turns s = []) : ∃ tm, s.timer = some tm ∧ s.now < tm.until_ := idle_timer hcfg hal hne hidle
 
 end Props.C08
